@@ -1001,23 +1001,43 @@ class Any(Reduction):
     _defaults = {"skipna": True, "split_every": False}
     reduction_chunk = M.any
 
+    @classmethod
+    def _partial(cls, df, **kwargs):
+        out = cls.reduction_chunk(df, **kwargs)
+        if is_series_like(out):
+            return out.to_frame().T
+        # The partial result of a Series is kept in a Series: with skipna=False
+        # it can be NA, which needs the nullable dtype that a list of scalars loses
+        return meta_series_constructor(df)(
+            [out], dtype="boolean" if out is pd.NA else bool
+        )
+
+    @classmethod
+    def chunk(cls, df, **kwargs):
+        return cls._partial(df, **kwargs)
+
+    @classmethod
+    def combine(cls, inputs: list, **kwargs):
+        return cls._partial(_concat(inputs), **kwargs)
+
     @property
     def chunk_kwargs(self):
         return dict(
             skipna=self.skipna,
         )
 
+    @property
+    def combine_kwargs(self):
+        return self.chunk_kwargs
 
-class All(Reduction):
-    _parameters = ["frame", "skipna", "split_every"]
+    @property
+    def aggregate_kwargs(self):
+        return self.chunk_kwargs
+
+
+class All(Any):
     _defaults = {"split_every": False}
     reduction_chunk = M.all
-
-    @property
-    def chunk_kwargs(self):
-        return dict(
-            skipna=self.skipna,
-        )
 
 
 class IdxMin(Reduction):
